@@ -53,7 +53,7 @@ def main():
         "hooks": {
             "guard": "cfg(kani)",
             "enable": "set by the Kani compiler only (cargo kani); ordinary cargo build/test never sees the hooks",
-            "baseline_off_cmd": "cd /repo && cargo test --workspace --no-fail-fast --offline",
+            "baseline_off_cmd": "cd /repo && cargo nextest run --workspace --no-fail-fast --tool-config-file pb:/w/lib/nextest.toml --profile pb --test-threads 8 --offline",
             "source_commits": hooks_commits,
             "add_only": True,
         },
